@@ -8,7 +8,7 @@ def run(prop, tier, seed):
     wd = vlib.workdir(prop)
     cfg = "C18.cfg" if tier == "quick" else "C18_thorough.cfg"
     # exhaustive enumeration: nothing random, `seed` only recorded
-    cases, res = ecommon.enumerate_cases(prop, "C18.tla", cfg, workers=1 if tier == "quick" else 8)
+    cases, states, twall = ecommon.enumerate_sharded(prop, "C18.tla", cfg, 2 if tier == "quick" else 6)
     run_cases, obs, failed, hwall = ecommon.judge(rep, cases, wd, "named/default argument call")
     accepted = [c for c in run_cases if c["cat"] == "ok"]
     misuse = [c for c in run_cases if c["cat"] != "ok"]
@@ -31,7 +31,7 @@ def run(prop, tier, seed):
         "rule": "TLC enumerates (states = cases) callee kind x arity x default subset x every argument-label sequence over "
                 "{positional, each parameter name, one unknown name} up to the length cap of %s; non-trivial = misuse shape or "
                 "accepted call using named arguments / reordering / an omitted default; distinct = distinct program texts" % cfg,
-        "tlc_states": res.distinct, "tlc_wall_s": round(res.wall, 1), "harness_wall_s": round(hwall, 1),
+        "tlc_states": states, "tlc_wall_s": round(twall, 1), "harness_wall_s": round(hwall, 1),
         "out_of_model_discarded": len(cases) - len(run_cases),
         "accepted_calls": len(accepted), "misuse_calls": len(misuse),
         "by_kind": ecommon.count_by(run_cases, "kind"),
